@@ -89,8 +89,8 @@ func (n *Node) Tip() (h refchain.Hash, height uint32) {
 
 // DeliverResult is what the harness observes from the node for one block.
 type DeliverResult struct {
-	Stage string // "decode" | "check" | "accept" | "ok"
-	Err   string
+	Stage      string // "decode" | "check" | "accept" | "ok"
+	Err        string
 	MaybeLater bool
 }
 
